@@ -74,10 +74,10 @@ def determinism_sample(tasks_):
 def build_history(seed, tier):
     st = seeds.streams(seed)
     rc = st[seeds.CONFIG]
-    h = histories.gen_history(st, n_ops=rc.randint(2, 8), fault_rate=0.35, threaded_rate=0.15, nested_calls=True)
+    h = histories.gen_history(st, n_ops=rc.randint(2, 8), fault_rate=0.35, threaded_rate=0.15, nested_calls=True, extra_file=rc.random() < 0.3)
     tracers = c04.TRACERS_THOROUGH
     tracer = rc.choice(tracers)
-    return {'files': h['files'], 'ops': h['ops'], 'config': {'tracer': tracer, 'ref': True, 'ambient_trace': rc.random() < 0.3},
+    return {'files': h['files'], 'ops': h['ops'], 'config': {'tracer': tracer, 'ref': True, 'ambient_trace': rc.random() < 0.3, 'allow_print': rc.random() < 0.15},
             'meta': {'entry': 'history', 'tracer': tracer, 'seed': seed}}
 
 
